@@ -16,13 +16,14 @@ NA_REASONS = {}
 
 def main():
     props = [json.loads(l) for l in open(os.path.join(HERE, "properties.jsonl"))]
+    registered = set(open(os.path.join(HERE, "tools", "registered.txt")).read().split())
     checks = {}
     for n in sorted(os.listdir(os.path.join(HERE, "checks"))):
         m = re.match(r"(c\d+)_\w+\.py$", n)
-        if not m:
+        if not m or m.group(1).upper() not in registered:
             continue
         mod = importlib.import_module("checks." + n[:-3])
-        if not hasattr(mod, "PID") or not hasattr(mod, "META"):
+        if not hasattr(mod, "PID") or not hasattr(mod, "META") or mod.PID not in registered:
             continue
         checks[mod.PID] = mod
     entries = []
